@@ -1,12 +1,15 @@
 (* line protocol (one answer line per request line):
    name <vendor> <model> <idtype> <ridhex|-> <fwhex|-> <caps:0|1> <ident:0|1>
         -> "ok name=<hex> v=<n> m=<n> fw=<hex|->"  |  "none"
-   run <dl> <dial> <rd|-> <send> P <scanport> D <n> {<host> <port|0=no address> <up|down|unknown> <namehex>}*n
+   run <dl> <dial> <rd|-> <send> <fc:0|1> P <scanport> D <n> {<host> <port|0=no address> <up|down|unknown> <namehex>}*n
                                  H <k> {<addr> <behaviour> <vendor> <model> <idtype> <ridhex|->}*k
                                  W <w> {<len> <addr>*len}*w
         -> "probed=<a,..> reported=<namehex@a,..> discovered=<namehex@a,..> time=<n|never>"
         behaviours: refuse unreachable silent garbage stallneg stallex noclose answer noident
-        (firmware of every answering host is "1.2.3") *)
+        (firmware of every answering host is "1.2.3"), or a script
+          script:d=<r|n|delay>:h=<ans>:v=<ans>:sv=<ans|n>:c=<ans>:id=<0|1>:k=<ans>:x=<ans>:xo=<0|1>:fin=<0|1>:hg=<t|->:chat=<t_t_..|->:p=<period|->
+          <ans> = <delay>+ (positive answer) | <delay>- (negative answer) | - (none);  sv=n: no SET_PROTOCOL_VERSION
+        fc: the request goroutine closes the client after a failed Shutdown *)
 open Model
 
 let rec pos_of_int (n:int) : positive =
@@ -24,8 +27,31 @@ let codes_of_string s = List.init (String.length s) (fun i -> n_of_int (Char.cod
 
 let fw_default = codes_of_string "1.2.3"
 
+let answer_of s =
+  if s = "-" then NoAns else
+    let n = String.length s in
+    Ans (n_of_int (int_of_string (String.sub s 0 (n - 1))), s.[n - 1] = '+')
+
+let script_of spec caps ident =
+  let kv = List.filter_map (fun f -> match String.index_opt f '=' with
+      | Some i -> Some (String.sub f 0 i, String.sub f (i + 1) (String.length f - i - 1)) | None -> None)
+      (String.split_on_char ':' spec) in
+  let get k = try List.assoc k kv with Not_found -> failwith ("script: missing " ^ k) in
+  let optn s = if s = "-" then None else Some (n_of_int (int_of_string s)) in
+  { s_dial = (match get "d" with "r" -> DialRefused | "n" -> DialNever | d -> DialAccept (n_of_int (int_of_string d)));
+    s_hello = answer_of (get "h"); s_version = answer_of (get "v");
+    s_setver = (if get "sv" = "n" then None else Some (answer_of (get "sv")));
+    s_config = answer_of (get "c"); s_ident = (if get "id" = "1" then ident else None);
+    s_caps = answer_of (get "k"); s_capsv = caps;
+    s_close = answer_of (get "x"); s_close_other = (get "xo" = "1"); s_fin = (get "fin" = "1");
+    s_hangup = optn (get "hg");
+    s_chat = (if get "chat" = "-" then [] else List.map (fun x -> n_of_int (int_of_string x)) (String.split_on_char '_' (get "chat")));
+    s_period = optn (get "p") }
+
 let behaviour_of name v m t rid =
   let caps = Some ((v, m), fw_default) in
+  if String.length name > 7 && String.sub name 0 7 = "script:" then
+    Script (script_of (String.sub name 7 (String.length name - 7)) caps (Some (t, rid))) else
   match name with
   | "refuse" -> Refuse | "unreachable" -> Unreachable | "silent" -> Silent | "garbage" -> Garbage
   | "stallneg" -> StallNegotiate | "stallex" -> StallExchange
@@ -47,7 +73,7 @@ let () =
           | None -> print_endline "none"
           | Some i -> Printf.printf "ok name=%s v=%d m=%d fw=%s\n" (hex_of_codes i.i_name) (int_of_n i.i_vendor)
                         (int_of_n i.i_model) (hex_of_codes i.i_fw))
-       | "run" :: dl :: dial :: rd :: send :: "P" :: sport :: "D" :: rest ->
+       | "run" :: dl :: dial :: rd :: send :: fc :: "P" :: sport :: "D" :: rest ->
          let a = Array.of_list rest in
          let pos = ref 0 in
          let next () = let x = a.(!pos) in incr pos; x in
@@ -78,7 +104,7 @@ let () =
              List.init len (fun _ -> n_of_int (int_of_string (next ())))) in
          let tm = { dial = n_of_int (int_of_string dial);
                     read_deadline = (if rd = "-" then None else Some (n_of_int (int_of_string rd)));
-                    send_timeout = n_of_int (int_of_string send) } in
+                    send_timeout = n_of_int (int_of_string send); force_close = (fc = "1") } in
          let dl = n_of_int (int_of_string dl) in
          let dm = make_device_map devs in
          let sport = n_of_int (int_of_string sport) in
